@@ -72,6 +72,29 @@ func engineNLPSubset(ctx *Ctx) {
 			if r.Intn(5) == 0 {
 				q += " " + []string{"without opening", "see the contents", "How do I", "café 日本語", "?!"}[r.Intn(5)]
 			}
+			if r.Intn(7) == 0 {
+				// a chatty request: few content words spread over hundreds of bytes of filler (the CLI accepts 1000 bytes), one of them at the very end
+				cw := strings.Fields(vlib.GenQuery(r, words, 2+r.Intn(8), 0))
+				L := []int{120, 250, 300, 500, 520, 700, 990, 1500, 3000}[r.Intn(9)]
+				var parts []string
+				for i, w := range cw {
+					if i == len(cw)-1 {
+						parts = append(parts, vlib.StopFiller(r.Intn, L*2/3))
+					} else if r.Intn(2) == 0 {
+						parts = append(parts, vlib.StopFiller(r.Intn, L/(3*len(cw))+1))
+					}
+					parts = append(parts, w)
+				}
+				q = strings.Join(parts, " ")
+				ctx.R.Path("chatty-queries", 1)
+				if len(q) > 512 {
+					ctx.R.Path("chatty-queries-over-512-bytes", 1)
+				}
+			}
+			if r.Intn(9) == 0 {
+				q = ctx.Dict().DictQuery(r) + " " + vlib.GenQuery(r, words, 1+r.Intn(3), 0) // wording taken from the tree's own tables (stop words, synonyms, intents)
+				ctx.R.Path("dictionary-queries", 1)
+			}
 			o := database.SearchOptions{Limit: N + 1, AllPlatforms: r.Intn(4) > 0, TopTermsCap: []int{0, 0, 0, 1, 4, 10, 50}[r.Intn(7)]}
 			if r.Intn(4) == 0 {
 				o.ContextBoosts = map[string]float64{vlib.Word(r, words): 2}
